@@ -253,7 +253,7 @@ class FileDataPdu(AbstractPduBase):
             struct_arg_tuple = ("!I", 4)
         else:
             struct_arg_tuple = ("!Q", 8)
-        if current_idx + struct_arg_tuple[1] >= len(data):
+        if current_idx + struct_arg_tuple[1] > end_of_file_data:
             raise ValueError("Packet too small to accommodate offset")
         file_data_packet._params.offset = struct.unpack(
             struct_arg_tuple[0],
